@@ -151,6 +151,13 @@ def aggregate(H=3, W=3, disps=(0, 1), subpix=1, len_arms=2, offset=0, cap=120, b
         except Exception as e:      # noqa
             col.path_exception(e, label='p%d' % len(EX.trace), extra=ex); return
         out = cv["cost_volume"].data
+        if len(calls) < first + 1 + subpix:
+            # the cross supports were not (all) recomputed for the images of this call (e.g. reused from an earlier call on the same
+            # object): the reference uses the arms the images of THIS call give, i.e. what the stub returns for them
+            shp_ = [(Hc, Wc), (Hc, Wc)] + [(Hc, Wc - 1)] * (subpix - 1)
+            ex['supports_not_recomputed'] = True
+            while len(calls) < first + 1 + subpix:
+                stub_cross(np.zeros(shp_[len(calls) - first], np.float32), len_arms, 5.0)
         al = calls[first]; ars = calls[first + 1:first + 1 + subpix]
         ex['arms'] = [c_.tolist() for c_ in calls[first:first + 1 + subpix]]
         ex['first_arms'] = [c_.tolist() for c_ in calls[:first]]
